@@ -108,7 +108,12 @@ func (p *parser) advance() bool {
 			// ignore
 
 		} else if char == '#' {
-			p.next()
+			// skip the blank that separates '#' from the comment text; an empty
+			// comment ("#" directly followed by the line end or the end of the
+			// input) has none
+			if p.next() != ' ' {
+				p.backup()
+			}
 			start := p.position
 			for {
 				c := p.next()
@@ -121,7 +126,10 @@ func (p *parser) advance() bool {
 				p.lastComment.WriteByte('\n')
 			}
 			p.lastComment.WriteString(p.input[start:p.position])
-			p.next()
+			// consume the line end of the comment, if there is one
+			if p.next() != '\n' {
+				p.backup()
+			}
 
 		} else {
 			p.backup()
